@@ -1010,4 +1010,66 @@ theorem mean_of_leaf_means_counterexample :
   decide
 
 
+/-! ## comparisons with a lazy stack on the left -/
+
+/-- **lazy comparison with a tensor collection**: member `i` of the result compares, key by key, member `i` of self with
+slice `i` of the operand along self's stack dim (KeyError when their key sets differ) -/
+theorem lazyCmp_collection_pointwise (op rop : V → V → V) (stackV : List V → V) (A sl R : List (KV V))
+    (hd : Bool) (h : lazyCmp op rop stackV hd A (.collection sl) = .ok (.members R)) :
+    R.length = A.length ∧ A.length = sl.length ∧
+    ∀ (j : Nat) (a b : KV V), A[j]? = some a → sl[j]? = some b → (keys a).Nodup →
+      ∃ r, R[j]? = some r ∧ keys r = keys a ∧ ∀ k, get? r k = pair op (get? a k) (get? b k) := by
+  simp only [lazyCmp] at h
+  cases hm : memberwise (cmp op) A (sl.map Other.td) with
+  | error e => simp [hm] at h
+  | ok ms =>
+    simp only [hm] at h
+    injection h with h; injection h with h; subst h
+    obtain ⟨h1, h2, h3⟩ := memberwise_get (cmp op) A (sl.map Other.td) ms hm
+    refine ⟨h1, by simpa using h2, fun j a b ha hb hnd => ?_⟩
+    obtain ⟨r, hr, hc⟩ := h3 j a (.td b) ha (by simp [hb])
+    exact ⟨r, hr, cmp_pointwise op a b r hnd hc⟩
+
+theorem pair_flip (op rop : V → V → V) (hrefl : ∀ x y, rop y x = op x y) (x y : Option V) :
+    pair rop y x = pair op x y := by
+  cases x <;> cases y <;> simp [pair, hrefl]
+
+/-- **lazy comparison with a tensorclass is evaluated on the tensorclass with the REFLECTED operator**: provided
+`inverse_str` names the reflection of the comparison (`rop y x = op x y`: `>=` / `<=`, `>` / `<`, `==` / `==`, `!=` / `!=`),
+the result holds under every key `op (stacked entries of self) (entry of the tensorclass)` -/
+theorem lazyCmp_tensorclass_reflected (op rop : V → V → V) (hrefl : ∀ x y, rop y x = op x y) (stackV : List V → V)
+    (A : List (KV V)) (kv r : KV V) (hnd : (keys kv).Nodup)
+    (hd : Bool) (h : lazyCmp op rop stackV hd A (.tensorclass kv) = .ok (.dense r)) :
+    keys r = keys kv ∧ ∀ k, get? r k = pair op (get? (denseOf stackV A) k) (get? kv k) := by
+  simp only [lazyCmp] at h
+  cases hc : cmp rop kv (.td (denseOf stackV A)) with
+  | error e => simp [hc] at h
+  | ok r0 =>
+    simp only [hc] at h
+    injection h with h; injection h with h; subst h
+    obtain ⟨h1, h2⟩ := cmp_pointwise rop kv (denseOf stackV A) r0 hnd hc
+    exact ⟨h1, fun k => by rw [h2 k, pair_flip op rop hrefl]⟩
+
+/-- **the inverse is not the reflection** (seeded defect C09-2): dispatching `>=` to the operand's `<` (the logical
+inverse) instead of its `<=` gives the wrong answer on a tie: `2 >= 2` is true, `2 < 2` is false -/
+theorem lazyCmp_inverse_counterexample :
+    let ge : Int → Int → Int := fun x y => if x ≥ y then 1 else 0
+    let lt : Int → Int → Int := fun x y => if x < y then 1 else 0
+    let le : Int → Int → Int := fun x y => if x ≤ y then 1 else 0
+    let stackV : List Int → Int := fun l => l.headD 0
+    (match lazyCmp ge lt stackV false [[(["a"], 2)]] (.tensorclass [(["a"], 2)]) with
+      | .ok (.dense r) => get? r ["a"] | _ => none) = some 0 ∧
+    (match lazyCmp ge le stackV false [[(["a"], 2)]] (.tensorclass [(["a"], 2)]) with
+      | .ok (.dense r) => get? r ["a"] | _ => none) = some 1 := by
+  decide
+
+/-- same batch rank but another batch size: RuntimeError; an operand that is neither a collection, a number nor a
+tensor: ValueError for the ordering comparisons, the default (`False` for `==`, `True` for `!=`) otherwise -/
+theorem lazyCmp_rejects (op rop : V → V → V) (stackV : List V → V) (hd : Bool) (A : List (KV V)) :
+    lazyCmp op rop stackV hd A .shapeMismatch = .error .runtime ∧
+    lazyCmp op rop stackV false A .unsupported = .error .value ∧
+    lazyCmp op rop stackV true A .unsupported = .ok .default :=
+  ⟨rfl, by simp [lazyCmp], by simp [lazyCmp]⟩
+
+
 end TdVerif.Props.C09
